@@ -21,4 +21,6 @@ def check(ctx):
     tablefmt.check_write_block(ctx)
     tablefmt.check_read_block(ctx)
     tablefmt.check_footer(ctx)
+    tablefmt.check_filter_builder(ctx)
+    tablefmt.check_snappy_literal(ctx)
     c01.check_table_get(ctx)
